@@ -12,6 +12,7 @@ import (
 	cs "github.com/lianxiangcloud/linkchain/consensus"
 	cstypes "github.com/lianxiangcloud/linkchain/consensus/types"
 	auto "github.com/lianxiangcloud/linkchain/libs/autofile"
+	"github.com/lianxiangcloud/linkchain/libs/crypto"
 	"github.com/lianxiangcloud/linkchain/libs/log"
 	"github.com/lianxiangcloud/linkchain/types"
 
@@ -166,7 +167,18 @@ type recPV struct {
 }
 
 func (p *recPV) SignVote(chainID string, vote *types.Vote) error {
-	err := p.FilePV.SignVote(chainID, vote)
+	var err error
+	if p.n.cl.cfg.PermissivePV {
+		// no signer-side guard: what the state machine asks for is what gets
+		// released (only in runs without restarts)
+		var sig crypto.Signature
+		sig, err = p.n.key.Priv.Sign(vote.SignBytes(chainID))
+		if err == nil {
+			vote.Signature = sig
+		}
+	} else {
+		err = p.FilePV.SignVote(chainID, vote)
+	}
 	if vote.Signature != nil && !p.n.frozen {
 		kind := "prevote"
 		if vote.Type == types.VoteTypePrecommit {
